@@ -103,6 +103,31 @@ end UpfVerif.Core
 
 namespace UpfVerif.Core
 
+theorem emitOne_ids (s : Sess) (r : Report) (x : BitVec 32) (b : Bool) :
+    (emitOne s r x b).1.localID = s.localID ∧ (emitOne s r x b).1.remoteID = s.remoteID ∧
+    (emitOne s r x b).1.rnode = s.rnode ∧ (emitOne s r x b).1.pdrs = s.pdrs ∧
+    (emitOne s r x b).1.fars = s.fars ∧ (emitOne s r x b).1.qers = s.qers ∧
+    (emitOne s r x b).1.bars = s.bars ∧ (emitOne s r x b).1.q = s.q := by
+  unfold emitOne
+  split <;> exact ⟨rfl, rfl, rfl, rfl, rfl, rfl, rfl, rfl⟩
+
+/-- the emission loop touches only the URR bookkeeping -/
+theorem emitUsars_ids (s : Sess) (rs : List Report) (x : BitVec 32) (b : Bool) :
+    (emitUsars s rs x b).1.localID = s.localID ∧ (emitUsars s rs x b).1.remoteID = s.remoteID ∧
+    (emitUsars s rs x b).1.rnode = s.rnode ∧ (emitUsars s rs x b).1.pdrs = s.pdrs ∧
+    (emitUsars s rs x b).1.fars = s.fars ∧ (emitUsars s rs x b).1.qers = s.qers ∧
+    (emitUsars s rs x b).1.bars = s.bars ∧ (emitUsars s rs x b).1.q = s.q := by
+  induction rs generalizing s with
+  | nil => exact ⟨rfl, rfl, rfl, rfl, rfl, rfl, rfl, rfl⟩
+  | cons r rs ih =>
+    unfold emitUsars
+    have h1 := emitOne_ids s r x b
+    have h2 := ih (emitOne s r x b).1
+    simp only []
+    exact ⟨h2.1.trans h1.1, h2.2.1.trans h1.2.1, h2.2.2.1.trans h1.2.2.1, h2.2.2.2.1.trans h1.2.2.2.1,
+      h2.2.2.2.2.1.trans h1.2.2.2.2.1, h2.2.2.2.2.2.1.trans h1.2.2.2.2.2.1,
+      h2.2.2.2.2.2.2.1.trans h1.2.2.2.2.2.2.1, h2.2.2.2.2.2.2.2.trans h1.2.2.2.2.2.2.2⟩
+
 theorem handleMod_outs (st : State) (addr : String) (seq : BitVec 24) (r : ModReq) (env : Env) (c : Ctx) :
     HandlerOuts addr seq c (handleMod st addr seq r env c).2 := by
   unfold handleMod
@@ -156,20 +181,7 @@ theorem handleMod_rsp (st : State) (addr : String) (seq : BitVec 24) (r : ModReq
       · simp at h; subst h; subst hrsp
         refine ⟨rfl, rfl, ?_, rfl⟩
         simp only
-        -- emitUsars does not touch the SEIDs
-        have : ∀ (s : Sess) (rs : List Report) (x : BitVec 32) (b : Bool), (emitUsars s rs x b).1.remoteID = s.remoteID := by
-          intro s rs x b
-          unfold emitUsars
-          generalize hinit : ((s, []) : Sess × List UsarIE) = init
-          have hinv : init.1.remoteID = s.remoteID := by subst hinit; rfl
-          clear hinit
-          induction rs generalizing init with
-          | nil => simpa using hinv
-          | cons r rs ih =>
-            simp only [List.foldl_cons]
-            apply ih
-            split <;> simp_all
-        rw [this, hrem]
+        rw [(emitUsars_ids s16 u16 0 true).2.1, hrem]
 
 end UpfVerif.Core
 
@@ -237,7 +249,7 @@ theorem handleEst_outs (st : State) (addr : String) (seq : BitVec 24) (r : EstRe
         simp only []
         exact handlerOuts_of_sendRsp _ addr seq _ rfl c c5 hk.2.2.2.toDpExt
 
-theorem handleAssoc_outs (st : State) (addr : String) (seq : BitVec 24) (nid : Option String) (env : Env) (c : Ctx) :
+theorem handleAssoc_outs (st : State) (addr : String) (seq : BitVec 24) (nid : Option NodeId) (env : Env) (c : Ctx) :
     HandlerOuts addr seq c (handleAssoc st addr seq nid env c).2 := by
   unfold handleAssoc
   split
@@ -279,7 +291,7 @@ theorem SameTrans.trans {a b c : State} (h1 : SameTrans a b) (h2 : SameTrans b c
 
 theorem setSess_same (st : State) (s : Sess) : SameTrans st (st.setSess s) := ⟨rfl, rfl, rfl, rfl⟩
 theorem modNode_same (st : State) (h : Nat) (f : RNode → RNode) : SameTrans st (st.modNode h f) := ⟨rfl, rfl, rfl, rfl⟩
-theorem updateNodeID_same (st : State) (h : Nat) (n : String) : SameTrans st (st.updateNodeID h n) := ⟨rfl, rfl, rfl, rfl⟩
+theorem updateNodeID_same (st : State) (h : Nat) (n : NodeId) : SameTrans st (st.updateNodeID h n) := ⟨rfl, rfl, rfl, rfl⟩
 
 theorem deleteSess_same (st : State) (h : Nat) (x : Seid) (env : Env) (c : Ctx) :
     SameTrans st (st.deleteSess h x env c).1 := by
@@ -447,25 +459,6 @@ theorem serveReport_rx (st : State) (x : Seid) (items : List RepItem) (c : Ctx) 
 end UpfVerif.Core
 
 namespace UpfVerif.Core
-
-/-- the emission loop touches only the URR bookkeeping -/
-theorem emitUsars_ids (s : Sess) (rs : List Report) (x : BitVec 32) (b : Bool) :
-    (emitUsars s rs x b).1.localID = s.localID ∧ (emitUsars s rs x b).1.remoteID = s.remoteID ∧
-    (emitUsars s rs x b).1.rnode = s.rnode ∧ (emitUsars s rs x b).1.pdrs = s.pdrs ∧
-    (emitUsars s rs x b).1.fars = s.fars ∧ (emitUsars s rs x b).1.qers = s.qers ∧
-    (emitUsars s rs x b).1.bars = s.bars ∧ (emitUsars s rs x b).1.q = s.q := by
-  unfold emitUsars
-  generalize hinit : ((s, []) : Sess × List UsarIE) = init
-  have hinv : init.1.localID = s.localID ∧ init.1.remoteID = s.remoteID ∧ init.1.rnode = s.rnode ∧
-      init.1.pdrs = s.pdrs ∧ init.1.fars = s.fars ∧ init.1.qers = s.qers ∧ init.1.bars = s.bars ∧ init.1.q = s.q := by
-    subst hinit; exact ⟨rfl, rfl, rfl, rfl, rfl, rfl, rfl, rfl⟩
-  clear hinit
-  induction rs generalizing init with
-  | nil => simpa using hinv
-  | cons r rs ih =>
-    simp only [List.foldl_cons]
-    apply ih
-    split <;> simp_all
 
 /-- driver calls of a Modification Request are tagged with the SEID of the session the header SEID resolved to -/
 theorem handleMod_tagged (st : State) (addr : String) (seq : BitVec 24) (r : ModReq) (env : Env) (c : Ctx) (s0 : Sess)
